@@ -8,17 +8,19 @@
    Modelled, not verified: importlib, dir(), inspect, decorator evaluation order (the rank counter), sorted(glob/listdir). *)
 From Coq Require Import List Arith NArith Permutation.
 Import ListNotations.
-From LCC Require Import Model.Loader Proofs.LoaderP.
+From Coq Require Import Sorted.
+From LCC Require Import Model.Loader Proofs.LoaderP Proofs.LoaderOrderP Proofs.LoaderInvP.
 
 (* For ALL layouts (any nesting of directories, modules with or without SUITE / companion directory, classes, nested classes,
-   single-class collapse, hidden / visible_if / disabled / parametrized symbols, shadowed attributes, any ranks): whenever the
-   (fixed) loader returns a tree, the tests in it -- with the names of their enclosing suites, their name, description,
-   disabled flag, tags and parameters -- are EXACTLY the declared visible tests: each exactly once (equality of multisets),
-   nothing else. *)
+   single-class collapse, hidden / visible_if / disabled / parametrized symbols, shadowed attributes, any explicit ranks, any
+   starting value of the rank counter) in which the names within one directory are distinct: whenever the (fixed) loader
+   returns a tree, the tests in it -- with the names of their enclosing suites, their name, description, disabled flag, tags
+   and parameters -- are EXACTLY the visible tests the source tree declares: each exactly once (equality of multisets),
+   nothing else.  [declared_dir [] root] is evaluated on the source tree itself. *)
 Theorem C13_exact : forall (rank0 : nat) (root : dir) (suites : list lsuite),
-  names_ok (prepared true rank0 root) -> load true rank0 root = Ok suites ->
-  Permutation (map obs_of (flat_all [] suites)) (declared_dir [] (prepared true rank0 root)).
-Proof. exact load_exact. Qed.
+  names_ok root -> load true rank0 root = Ok suites ->
+  Permutation (map obs_of (flat_all [] suites)) (declared_dir [] root).
+Proof. exact load_exact_source. Qed.
 Print Assumptions C13_exact.
 
 (* the same below a module, for every module (no hypothesis on names) and every prefix path *)
@@ -32,14 +34,16 @@ Print Assumptions C13_exact_module.
    class (with everything in it), a hidden module, and the companion directory of a hidden module; no hidden suite is ever
    part of the loaded tree (any variant of the loader) *)
 Theorem C13_hidden_omitted : forall (rank0 : nat) (root : dir) (suites : list lsuite),
-  names_ok (prepared true rank0 root) -> load true rank0 root = Ok suites ->
-  (forall path t, In (path, t) (flat_all [] suites) -> In (path, info_of t) (declared_dir [] (prepared true rank0 root))) /\
+  names_ok root -> load true rank0 root = Ok suites ->
+  (forall path t, In (path, t) (flat_all [] suites) -> In (path, info_of t) (declared_dir [] root)) /\
   (forall p it, item_hidden it = true -> declared_item p it = []) /\
   (forall p m, mod_hidden m = true -> declared_module p m = []) /\
   (forall p mods x m, find (file_is (dir_name x)) mods = Some m -> mod_hidden m = true -> sub_spec declared_dir p mods x = []).
 Proof.
-  intros. split; [eapply loaded_subset_declared; eassumption|]. split; [exact hidden_item_declares_nothing|].
-  split; [exact hidden_module_declares_nothing|exact hidden_module_dir_declares_nothing].
+  intros rank0 root suites Hn H. split.
+  - intros path t Hin. eapply Permutation_in; [apply (load_exact_source _ _ _ Hn H)|].
+    change (path, info_of t) with (obs_of (path, t)). apply in_map. assumption.
+  - split; [exact hidden_item_declares_nothing|]. split; [exact hidden_module_declares_nothing|exact hidden_module_dir_declares_nothing].
 Qed.
 Print Assumptions C13_hidden_omitted.
 
@@ -52,8 +56,8 @@ Definition f16_tree : dir :=
              m_rank := 0; m_items := [t_plain [116%N]] |}]
          [Dir [102; 111; 111]%N [{| m_file := [98; 97; 114]%N; m_suite := None; m_rank := 0; m_items := [t_plain [117%N]] |}] []].
 Theorem C13_hidden_omitted_refuted : exists (root : dir) (suites : list lsuite) (path : list str) (t : ltest),
-  names_ok (prepared false 1 root) /\ load false 1 root = Ok suites /\ In (path, t) (flat_all [] suites) /\
-  declared_dir [] (prepared false 1 root) = [] /\ load true 1 root = Ok [].
+  names_ok root /\ load false 1 root = Ok suites /\ In (path, t) (flat_all [] suites) /\
+  declared_dir [] root = [] /\ load true 1 root = Ok [].
 Proof.
   exists f16_tree. eexists. eexists. eexists. split; [|split; [vm_compute; reflexivity|split; [vm_compute; left; reflexivity|split; vm_compute; reflexivity]]].
   vm_compute. repeat (constructor; simpl; try tauto; try (intros [H|H]; [discriminate|tauto])).
@@ -74,3 +78,51 @@ Theorem C13_duplicates_rejected_iff : forall (tests : list ltest) (subs : list l
   ((exists r, add_suites [] subs = Ok r) <-> NoDup (map ls_name subs) /\ NoDup (map ls_desc subs)).
 Proof. intros. split; [apply add_tests_iff|apply add_suites_iff]. Qed.
 Print Assumptions C13_duplicates_rejected_iff.
+
+(* order.  (1) In every scope the symbols are taken in rank order (tests, and sub-suite classes with or without rank=). *)
+Theorem C13_order_by_rank : forall (f : item -> bool) (body : list item),
+  StronglySorted (fun a b => item_rank a <= item_rank b) (symbols f body).
+Proof. exact symbols_sorted. Qed.
+Print Assumptions C13_order_by_rank.
+
+(* (2) Rank order IS declaration order: for every scope (module or class body, at any depth: [body] and the counter [n] are
+   arbitrary), after the import pass the symbols selected by [f] -- all tests; all suite classes that have no rank= -- come
+   out exactly in the order in which they are written in the source (shadowed definitions dropped), whatever their names. *)
+Theorem C13_order : forall (f : item -> bool) (body : list item) (n : nat),
+  (forall x, f x = true -> auto_ranked x = true) ->
+  symbols f (fst (rank_items n body)) = filter f (dedupe_last (fst (rank_items n body))).
+Proof. exact order_of_scope. Qed.
+Print Assumptions C13_order.
+
+(* in particular the tests of a scope (with their parameter sets in the order of the parameter source) *)
+Theorem C13_order_tests : forall (body : list item) (n : nat),
+  load_tests_of (fst (rank_items n body)) = flat_map expand_item (filter is_test (dedupe_last (fst (rank_items n body)))).
+Proof. exact tests_in_declaration_order. Qed.
+Print Assumptions C13_order_tests.
+
+(* ---- non-vacuity: a layout with a companion directory, a single-class collapse, a nested class, a hidden test, a
+   parametrized test with default naming and an explicit rank: the hypotheses of C13_exact hold and five tests are loaded *)
+Definition c_ (a : str) (rk : option nat) (body : list item) : item :=
+  IClass 0 {| c_attr := a; c_name := None; c_desc := None; c_rank := rk; c_cond := None; c_disabled := false; c_tags := [] |} body.
+Definition t_hidden (a : str) : item :=
+  ITest 0 {| t_attr := a; t_name := None; t_desc := None; t_cond := Some false; t_disabled := false; t_tags := []; t_params := None |}.
+Definition t_param (a : str) (vals : list nat) : item :=
+  ITest 0 {| t_attr := a; t_name := None; t_desc := None; t_cond := None; t_disabled := true; t_tags := [[120%N]];
+             t_params := Some (vals, NDefault) |}.
+Definition witness_tree : dir :=
+  Dir [] [ {| m_file := [98%N]; m_suite := None; m_rank := 0;
+              m_items := [c_ [98%N] None [t_plain [122%N]; t_hidden [104%N]; c_ [110%N] (Some 0) [t_param [112%N] [7; 9]]]] |};
+           {| m_file := [97%N]; m_suite := Some {| s_name := None; s_desc := None; s_rank := None; s_cond := None; s_tags := [] |};
+              m_rank := 0; m_items := [t_plain [116%N]] |} ]
+         [Dir [98%N] [{| m_file := [99%N]; m_suite := None; m_rank := 0; m_items := [t_plain [117%N]] |}] []].
+Example C13_witness :
+  names_ok witness_tree /\
+  exists suites, load true 1 witness_tree = Ok suites /\
+    map (fun pt => (fst pt, lt_name (snd pt))) (flat_all [] suites) =
+      [([[97%N]], [116%N]); ([[98%N]], [122%N]); ([[98%N]; [110%N]], [112; 95; 49]%N); ([[98%N]; [110%N]], [112; 95; 50]%N);
+       ([[98%N]; [99%N]], [117%N])].
+Proof.
+  split.
+  - repeat (constructor; simpl; try tauto; try (intros [H|H]; [discriminate|tauto])).
+  - eexists. split; vm_compute; reflexivity.
+Qed.
